@@ -228,7 +228,7 @@ where
     /// ```
     #[inline]
     pub fn get(&self, index: usize) -> &S::Element {
-        let wrapped_index = (self.first + index) % self.len();
+        let wrapped_index = (self.first + index % self.len()) % self.len();
         &self.data.slice()[wrapped_index]
     }
 
@@ -240,7 +240,7 @@ where
     where
         S: SliceMut,
     {
-        let wrapped_index = (self.first + index) % self.len();
+        let wrapped_index = (self.first + index % self.len()) % self.len();
         &mut self.data.slice_mut()[wrapped_index]
     }
 
